@@ -12,6 +12,7 @@ import Pdb.Model.Dur
 import Pdb.Model.MultiTree
 import Pdb.Model.Migrate
 import Pdb.Model.BTree
+import Pdb.Model.Index
 
 open Pdb
 
@@ -107,6 +108,7 @@ structure State where
   c06 : Pdb.ValueTable.State := {}
   c10 : Pdb.MultiTree.DState := none
   c04 : Option Pdb.C04.Drv := none
+  c09 : Pdb.Index.DState := Pdb.Index.DState.init
 
 def stepLine (s : State) (line : String) : State × String :=
   let ws := (line.trimAscii.toString.splitOn " ").filter (· ≠ "")
@@ -125,6 +127,9 @@ def stepLine (s : State) (line : String) : State × String :=
   | "c08" :: rest => (s, Pdb.Validate.driverLine rest)
   | "c12" :: rest => (s, Pdb.Dur.driverLine rest)
   | "c20" :: rest => (s, Pdb.Migrate.driverLine rest)
+  | "c09" :: rest =>
+    let (d, out) := Pdb.Index.step s.c09 rest
+    ({ s with c09 := d }, out)
   | "c04" :: rest =>
     let r := Pdb.C04.driverStep s.c04 rest
     ({ s with c04 := r.1 }, r.2)
